@@ -148,6 +148,32 @@ CHECKS = [
         "note": "Trusts vf.vt, vf.ref.padding, the plain BlockImage render (judged by C01/C02) and urwid's "
                 "CompositeCanvas trimming.",
     },
+    {
+        "property_id": "C13",
+        "level": "fault_enumeration",
+        "technique": "fault enumeration: every wrapped tty system-call boundary of a generated operation is injected (before/after, KeyboardInterrupt/RuntimeError) on a real pty",
+        "text": "For generated initial termios attribute sets and operations (queries, direct reads in every "
+                "timeout/min/echo mode, writes, cell-size/colour/identity queries, kitty support query, "
+                "Renderable.draw with echo suppressed, a raising `more` predicate) a fault-free dry run numbers every "
+                "os.read/os.write/select/tcdrain/tcsetattr/tcgetattr/monotonic call; then every boundary is injected "
+                "before and after the real call with KeyboardInterrupt and RuntimeError, and tcgetattr(pty slave) "
+                "must equal the initial set field for field afterwards.",
+        "note": "Crash points are call boundaries of the wrapped tty system calls (not arbitrary bytecodes); a fault "
+                "before the call that restores the original attributes is the operation's own clean-up and is "
+                "excluded (counted in the evidence). Virtual clock; real kernel pty/termios.",
+    },
+    {
+        "property_id": "C15",
+        "technique": "model-based testing of generated histories on a real pty (resize/toggle/query ops) + barrier-released concurrent first calls",
+        "text": "Histories of resize (TIOCSWINSZ), win-size-swap and query toggles, cell-ratio mode changes, reads of "
+                "cell size/ratio/colours/identity/kitty-workaround flag, changes of what the simulated terminal "
+                "reports, and calls of cached / terminal_size_cached harness functions are checked against a model "
+                "whose acceptable values are the fresh computation plus only the staleness the documentation allows; "
+                "patterns disabled->compute->enabled->compute and compute->toggle->recompute are generated "
+                "deliberately. Concurrent first calls of a cached function must run each body exactly once.",
+        "note": "Pixel-size/reported-value changes need only be noticed on a size change in cells or a toggle; only "
+                "results obtained while queries were disabled must be discarded by enable_queries().",
+    },
 ]
 
 NOT_APPLICABLE = [
